@@ -1,7 +1,9 @@
 /-
-  Lemmas/FusionTask.lean — the sub-graph built by `Fused._task(index)` (nested groups flattened by
-  `graph.update`, later writes win) binds every member key to the member's own task, every external
-  key to its placeholder, and the chain of name keys leads to the innermost first member.
+  Lemmas/FusionTask.lean — the sub-graph built by `Fused._task(index)` (nested groups at any position,
+  merged without their dependency placeholders; later writes win) binds every ordinary member's key
+  to the member's own task, every nested group's keys to the chain leading to its first member, and
+  every external key to its placeholder; evaluating it therefore computes what the unfused member
+  tasks compute.
 -/
 import DxModel.FusionCheck
 namespace Dx.Fusion
@@ -83,117 +85,212 @@ theorem plainAt_spec {dag : Dag} {t : Nat} (h : plainAt dag t = true) :
     simp only [hg, Bool.and_eq_true, List.isEmpty_iff, beq_iff_eq] at h
     exact ⟨tn, rfl, h.1.1, h.1.2, h.2⟩
 
-structure Level (dag : Dag) (fuel : Nat) (f : Node) (r : Nat) (tail : List Nat) (rn : Node) : Prop where
-  members : f.members = r :: tail
+structure Level (dag : Dag) (np fuel : Nat) (f : Node) : Prop where
   kall : f.kall = true
-  tail_plain : ∀ t ∈ tail, plainAt dag t = true
-  tail_lt : ∀ t ∈ tail, t < f.name
-  r_lt : r < f.name
-  r_node : getNode dag r = some rn
-  r_bw : rn.blockwise = true
-  r_name : rn.name = r
-  r_npart : rn.npart = f.npart
-  nested : rn.members ≠ [] → levelOK dag fuel rn = true ∧ ∀ t ∈ tail, t ∉ inner dag fuel rn
+  npart : f.npart = np
+  nonempty : f.members ≠ []
+  member : ∀ m ∈ f.members, m < f.name ∧ ∃ mn, getNode dag m = some mn ∧ mn.blockwise = true ∧ mn.name = m ∧
+    (mn.members ≠ [] → levelOK dag np fuel mn = true)
+  head : ∃ rn, getNode dag (f.members.headD 0) = some rn ∧ rn.npart = np
   deps_out : ∀ d ∈ f.deps, d ∉ inner dag (fuel+1) f ∧ d ≠ f.name
 
-theorem levelOK_spec {dag : Dag} {fuel : Nat} {f : Node} (h : levelOK dag (fuel+1) f = true) :
-    ∃ r tail rn, Level dag fuel f r tail rn := by
+theorem levelOK_spec {dag : Dag} {np fuel : Nat} {f : Node} (h : levelOK dag np (fuel+1) f = true) :
+    Level dag np fuel f := by
   unfold levelOK at h
-  simp only [Bool.and_eq_true] at h
-  obtain ⟨⟨⟨hbw, hkall⟩, hmem⟩, hdeps⟩ := h
-  cases hm : f.members with
-  | nil => simp [hm] at hmem
-  | cons r tail =>
-    simp only [hm, Bool.and_eq_true, List.all_eq_true, decide_eq_true_eq] at hmem
-    obtain ⟨⟨htail, hr⟩, hrn⟩ := hmem
-    cases hg : getNode dag r with
-    | none => simp [hg] at hrn
+  simp only [Bool.and_eq_true, Bool.not_eq_true', List.all_eq_true, decide_eq_true_eq, beq_iff_eq,
+    decide_eq_false_iff_not] at h
+  obtain ⟨⟨⟨⟨⟨⟨_, hk⟩, hnp⟩, hne⟩, hmem⟩, hhead⟩, hdeps⟩ := h
+  refine ⟨hk, hnp, ?_, ?_, ?_, ?_⟩
+  · intro h0; rw [h0] at hne; simp at hne
+  · intro m hm
+    obtain ⟨hlt, hrest⟩ := hmem m hm
+    refine ⟨hlt, ?_⟩
+    cases hg : getNode dag m with
+    | none => simp [hg] at hrest
+    | some mn =>
+      simp only [hg, Bool.and_eq_true, beq_iff_eq] at hrest
+      refine ⟨mn, rfl, hrest.1.1, hrest.1.2, ?_⟩
+      intro hne'
+      have := hrest.2
+      rw [if_pos hne'] at this
+      exact this
+  · cases hg : getNode dag (f.members.headD 0) with
+    | none => rw [hg] at hhead; cases hhead
     | some rn =>
-      simp only [hg, Bool.and_eq_true, beq_iff_eq] at hrn
-      obtain ⟨⟨⟨hrbw, hrname⟩, hrnp⟩, hnest⟩ := hrn
-      refine ⟨r, tail, rn, ⟨hm, hkall, fun t ht => (htail t ht).1, fun t ht => (htail t ht).2, hr, hg,
-        hrbw, hrname, hrnp, ?_, ?_⟩⟩
-      · intro hne
-        simp only [ne_eq, hne, not_false_eq_true, if_true, Bool.and_eq_true, List.all_eq_true, Bool.not_eq_true',
-          decide_eq_false_iff_not, ne_eq, not_false_eq_true] at hnest
-        exact hnest
-      · intro d hd
-        simp only [List.all_eq_true, Bool.and_eq_true, Bool.not_eq_true', decide_eq_false_iff_not] at hdeps
-        exact hdeps d hd
+      rw [hg] at hhead
+      exact ⟨rn, rfl, by simpa using hhead⟩
+  · intro d hd
+    exact hdeps d hd
 
-/-! ### the expected bindings (everything `Fused._task` writes except the placeholders) -/
+/-! ### the writes other than the placeholders -/
 
-def bindings (dag : Dag) (index : Nat) : Nat → Node → List (FKey × Tsk FKey)
+def coreWrites (dag : Dag) (index : Nat) : Nat → Node → List (FKey × Tsk FKey)
   | 0, _ => []
   | fuel+1, f =>
     [(FKey.top f.name, Tsk.alias (FKey.part (f.members.headD 0) index))] ++
-    f.members.flatMap (blockOf dag index (fun m => bindings dag index fuel m))
+    f.members.flatMap (blockOf dag index (fun m => coreWrites dag index fuel m))
 
-theorem inner_unfold {dag : Dag} {fuel : Nat} {f : Node} {r : Nat} {tail : List Nat} {rn : Node}
-    (L : Level dag fuel f r tail rn) :
-    inner dag (fuel+1) f = (r :: tail) ++ (if rn.members ≠ [] then inner dag fuel rn else []) := by
-  simp only [inner, L.members, L.r_node]
+theorem core_noPh (dag : Dag) (index : Nat) : ∀ (fuel : Nat) (f : Node),
+    ∀ w ∈ coreWrites dag index fuel f, isPh w.2 = false := by
+  intro fuel
+  induction fuel with
+  | zero => intro f w hw; simp [coreWrites] at hw
+  | succ fuel ih =>
+    intro f w hw
+    simp only [coreWrites, List.mem_append, List.mem_singleton, List.mem_flatMap] at hw
+    rcases hw with rfl | ⟨m, _, hw⟩
+    · rfl
+    · unfold blockOf at hw
+      cases hg : getNode dag m with
+      | none => simp [hg] at hw
+      | some mn =>
+        simp only [hg] at hw
+        by_cases hne : mn.members ≠ []
+        · rw [if_pos hne] at hw
+          rcases List.mem_append.mp hw with hw | hw
+          · exact ih mn w hw
+          · simp only [List.mem_singleton] at hw; subst hw; rfl
+        · rw [if_neg hne] at hw
+          simp only [List.mem_singleton] at hw; subst hw; rfl
 
-theorem flat_unfold {dag : Dag} {fuel : Nat} {f : Node} {r : Nat} {tail : List Nat} {rn : Node}
-    (L : Level dag fuel f r tail rn) :
-    flat dag (fuel+1) f = (if rn.members ≠ [] then flat dag fuel rn else [r]) ++ tail := by
-  simp only [flat, L.members, L.r_node]
+theorem ph_isPh (dag : Dag) (f : Node) (index : Nat) : ∀ w ∈ phWrites dag f index, isPh w.2 = true := by
+  intro w hw
+  unfold phWrites at hw
+  rw [List.mem_map] at hw
+  obtain ⟨⟨j, d⟩, _, rfl⟩ := hw
+  rfl
+
+theorem filter_core (dag : Dag) (index : Nat) : ∀ (fuel : Nat) (f : Node),
+    (fusedWrites dag index fuel f).filter (fun w => !isPh w.2) = coreWrites dag index fuel f := by
+  intro fuel
+  induction fuel with
+  | zero => intro f; rfl
+  | succ fuel ih =>
+    intro f
+    have hfun : (fun m => (fusedWrites dag index fuel m).filter (fun w => !isPh w.2)) =
+        (fun m => coreWrites dag index fuel m) := funext ih
+    simp only [fusedWrites, hfun]
+    rw [List.filter_append]
+    have h1 : ([(FKey.top f.name, Tsk.alias (FKey.part (f.members.headD 0) index))] ++
+        f.members.flatMap (blockOf dag index (fun m => coreWrites dag index fuel m))).filter (fun w => !isPh w.2) =
+        coreWrites dag index (fuel+1) f := by
+      have hX : coreWrites dag index (fuel+1) f =
+          [(FKey.top f.name, Tsk.alias (FKey.part (f.members.headD 0) index))] ++
+            f.members.flatMap (blockOf dag index (fun m => coreWrites dag index fuel m)) := rfl
+      rw [hX, List.filter_eq_self]
+      intro w hw
+      have := core_noPh dag index (fuel+1) f w (hX ▸ hw)
+      simp [this]
+    have h2 : (phWrites dag f index).filter (fun w => !isPh w.2) = [] := by
+      rw [List.filter_eq_nil_iff]
+      intro w hw
+      simp [ph_isPh dag f index w hw]
+    rw [h1, h2, List.append_nil]
+
+/-- the dict = the core writes followed by this group's own placeholders -/
+theorem writes_succ (dag : Dag) (index : Nat) (fuel : Nat) (f : Node) :
+    fusedWrites dag index (fuel+1) f = coreWrites dag index (fuel+1) f ++ phWrites dag f index := by
+  have hfun : (fun m => (fusedWrites dag index fuel m).filter (fun w => !isPh w.2)) =
+      (fun m => coreWrites dag index fuel m) := funext (filter_core dag index fuel)
+  simp only [fusedWrites, coreWrites, hfun]
+
+/-- what a key is bound to, as a function of the key alone -/
+def expectedTask (dag : Dag) (index : Nat) : FKey → Option (Tsk FKey)
+  | .top n => (getNode dag n).map (fun nd => Tsk.alias (FKey.part (nd.members.headD 0) index))
+  | .part x i =>
+    match getNode dag x with
+    | some nd => if nd.members ≠ [] then some (Tsk.alias (FKey.top x)) else some (plainTask dag nd i)
+    | none => none
+  | .ph _ => none
+
+theorem core_expected (dag : Dag) (index np : Nat) : ∀ (fuel : Nat) (f : Node), levelOK dag np fuel f = true →
+    getNode dag f.name = some f → ∀ w ∈ coreWrites dag index fuel f, expectedTask dag index w.1 = some w.2 := by
+  intro fuel
+  induction fuel with
+  | zero => intro f h; simp [levelOK] at h
+  | succ fuel ih =>
+    intro f h hself w hw
+    have L := levelOK_spec h
+    simp only [coreWrites, List.mem_append, List.mem_singleton, List.mem_flatMap] at hw
+    rcases hw with rfl | ⟨m, hm, hw⟩
+    · simp [expectedTask, hself]
+    · obtain ⟨_, mn, hg, _, hname, hnest⟩ := L.member m hm
+      simp only [blockOf, hg] at hw
+      by_cases hne : mn.members ≠ []
+      · rw [if_pos hne] at hw
+        rcases List.mem_append.mp hw with hw | hw
+        · exact ih mn (hnest hne) (by rw [hname]; exact hg) w hw
+        · simp only [List.mem_singleton] at hw; subst hw
+          simp only [expectedTask, hname, hg]
+          rw [if_pos hne]
+      · rw [if_neg hne] at hw
+        simp only [List.mem_singleton] at hw; subst hw
+        simp only [plainWrite, expectedTask, hname, hg]
+        rw [if_neg hne]
 
 /-- names inside a fused node are smaller than its own -/
-theorem inner_lt (dag : Dag) : ∀ (fuel : Nat) (f : Node), levelOK dag fuel f = true →
+theorem inner_lt (dag : Dag) (np : Nat) : ∀ (fuel : Nat) (f : Node), levelOK dag np fuel f = true →
     ∀ x ∈ inner dag fuel f, x < f.name := by
   intro fuel
   induction fuel with
   | zero => intro f h; simp [levelOK] at h
   | succ fuel ih =>
     intro f h x hx
-    obtain ⟨r, tail, rn, L⟩ := levelOK_spec h
-    rw [inner_unfold L] at hx
-    rcases List.mem_append.mp hx with hx | hx
-    · rcases List.mem_cons.mp hx with rfl | hx
-      · exact L.r_lt
-      · exact L.tail_lt x hx
-    · by_cases hne : rn.members ≠ []
-      · simp only [ne_eq, hne, not_false_eq_true, if_true] at hx
-        have := ih rn (L.nested hne).1 x hx
-        have h2 := L.r_lt
-        rw [← L.r_name] at h2
+    have L := levelOK_spec h
+    simp only [inner, List.mem_flatMap, List.mem_cons] at hx
+    obtain ⟨m, hm, hx⟩ := hx
+    obtain ⟨hlt, mn, hg, _, hname, hnest⟩ := L.member m hm
+    rcases hx with rfl | hx
+    · exact hlt
+    · simp only [hg] at hx
+      by_cases hne : mn.members ≠ []
+      · rw [if_pos hne] at hx
+        have := ih mn (hnest hne) x hx
+        rw [hname] at this
         omega
-      · simp [hne] at hx
+      · rw [if_neg hne] at hx; cases hx
 
-theorem flat_sub_inner (dag : Dag) : ∀ (fuel : Nat) (f : Node), levelOK dag fuel f = true →
-    ∀ x ∈ flat dag fuel f, x ∈ inner dag fuel f := by
+theorem flat_sub_inner (dag : Dag) : ∀ (fuel : Nat) (f : Node), ∀ x ∈ flat dag fuel f, x ∈ inner dag fuel f := by
   intro fuel
   induction fuel with
-  | zero => intro f h; simp [levelOK] at h
+  | zero => intro f x hx; simp [flat] at hx
   | succ fuel ih =>
-    intro f h x hx
-    obtain ⟨r, tail, rn, L⟩ := levelOK_spec h
-    rw [flat_unfold L] at hx
-    rw [inner_unfold L]
-    rcases List.mem_append.mp hx with hx | hx
-    · by_cases hne : rn.members ≠ []
-      · simp only [ne_eq, hne, not_false_eq_true, if_true] at hx ⊢
-        exact List.mem_append.mpr (Or.inr (ih rn (L.nested hne).1 x hx))
-      · simp only [hne, if_false, List.mem_singleton] at hx
-        subst hx; simp
-    · exact List.mem_append.mpr (Or.inl (List.mem_cons_of_mem _ hx))
+    intro f x hx
+    simp only [flat, List.mem_flatMap] at hx
+    obtain ⟨m, hm, hx⟩ := hx
+    simp only [inner, List.mem_flatMap, List.mem_cons]
+    refine ⟨m, hm, ?_⟩
+    cases hg : getNode dag m with
+    | none => simp only [hg, List.mem_singleton] at hx; exact Or.inl hx
+    | some mn =>
+      simp only [hg] at hx ⊢
+      by_cases hne : mn.members ≠ []
+      · rw [if_pos hne] at hx ⊢
+        exact Or.inr (ih mn x hx)
+      · rw [if_neg hne] at hx
+        simp only [List.mem_singleton] at hx
+        exact Or.inl hx
 
-/-- the tail of a level writes exactly the members' own tasks -/
-theorem tail_block {dag : Dag} {index : Nat} {nested : Node → List (FKey × Tsk FKey)} {tail : List Nat}
-    (hp : ∀ t ∈ tail, plainAt dag t = true) (b : FKey × Tsk FKey) :
-    b ∈ tail.flatMap (blockOf dag index nested) ↔
-      ∃ t ∈ tail, ∃ tn, getNode dag t = some tn ∧ b = plainWrite dag tn index := by
-  rw [List.mem_flatMap]
-  constructor
-  · rintro ⟨t, ht, hb⟩
-    obtain ⟨tn, hg, _, hmem, _⟩ := plainAt_spec (hp t ht)
-    simp only [blockOf, hg, hmem, ne_eq, not_true_eq_false, if_false, List.mem_singleton] at hb
-    exact ⟨t, ht, tn, hg, hb⟩
-  · rintro ⟨t, ht, tn, hg, rfl⟩
-    obtain ⟨tn', hg', _, hmem, _⟩ := plainAt_spec (hp t ht)
-    rw [hg] at hg'; cases hg'
-    exact ⟨t, ht, by simp [blockOf, hg, hmem]⟩
+theorem nested_sub_inner (dag : Dag) : ∀ (fuel : Nat) (f : Node), ∀ x ∈ nested dag fuel f, x ∈ inner dag fuel f := by
+  intro fuel
+  induction fuel with
+  | zero => intro f x hx; simp [nested] at hx
+  | succ fuel ih =>
+    intro f x hx
+    simp only [nested, List.mem_flatMap] at hx
+    obtain ⟨m, hm, hx⟩ := hx
+    simp only [inner, List.mem_flatMap, List.mem_cons]
+    refine ⟨m, hm, ?_⟩
+    cases hg : getNode dag m with
+    | none => simp [hg] at hx
+    | some mn =>
+      simp only [hg] at hx ⊢
+      by_cases hne : mn.members ≠ []
+      · rw [if_pos hne] at hx ⊢
+        rcases List.mem_cons.mp hx with rfl | hx
+        · exact Or.inl rfl
+        · exact Or.inr (ih mn x hx)
+      · rw [if_neg hne] at hx; cases hx
 
 theorem phWrites_key {dag : Dag} {f : Node} {index : Nat} {b : FKey × Tsk FKey}
     (h : b ∈ phWrites dag f index) : ∃ d ∈ f.deps, b.1 = argKey dag f index d := by
@@ -219,220 +316,63 @@ theorem argKey_name (dag : Dag) (c : Node) (i d : Nat) : ∃ j, argKey dag c i d
   | none => exact ⟨i, rfl⟩
   | some dn => exact ⟨_, rfl⟩
 
-/-- shape of the keys of the expected bindings: `top n` with `n ≤ f.name`, or `part x _` with `x`
-    inside `f` -/
-theorem bindings_keys (dag : Dag) (index : Nat) : ∀ (fuel : Nat) (f : Node), levelOK dag fuel f = true →
-    ∀ b ∈ bindings dag index fuel f,
-      (∃ n, b.1 = FKey.top n ∧ n ≤ f.name) ∨ (∃ x i, b.1 = FKey.part x i ∧ x ∈ inner dag fuel f) := by
+/-- keys of the core writes: `top _`, or `part x _` with `x` inside `f` -/
+theorem core_keys (dag : Dag) (index np : Nat) : ∀ (fuel : Nat) (f : Node), levelOK dag np fuel f = true →
+    ∀ w ∈ coreWrites dag index fuel f,
+      (∃ n, w.1 = FKey.top n) ∨ (∃ x i, w.1 = FKey.part x i ∧ x ∈ inner dag fuel f) := by
   intro fuel
   induction fuel with
   | zero => intro f h; simp [levelOK] at h
   | succ fuel ih =>
-    intro f h b hb
-    obtain ⟨r, tail, rn, L⟩ := levelOK_spec h
-    rw [inner_unfold L]
-    simp only [bindings, L.members, List.flatMap_cons, List.mem_append, List.mem_singleton] at hb
-    rcases hb with rfl | hb | hb
-    · exact Or.inl ⟨f.name, rfl, Nat.le_refl _⟩
-    · simp only [blockOf, L.r_node] at hb
-      by_cases hne : rn.members ≠ []
-      · simp only [ne_eq, hne, not_false_eq_true, if_true, List.mem_append, List.mem_singleton] at hb
-        rcases hb with hb | rfl
-        · rcases ih rn (L.nested hne).1 b hb with ⟨n, h1, h2⟩ | ⟨x, i, h1, h2⟩
-          · have := L.r_lt; rw [← L.r_name] at this
-            exact Or.inl ⟨n, h1, by omega⟩
-          · exact Or.inr ⟨x, i, h1, by simp [hne, h2]⟩
-        · exact Or.inr ⟨rn.name, index, rfl, by simp [L.r_name]⟩
-      · simp only [hne, if_false, List.mem_singleton] at hb
-        subst hb
-        exact Or.inr ⟨rn.name, _, rfl, by simp [L.r_name]⟩
-    · obtain ⟨t, ht, tn, hg, rfl⟩ := (tail_block L.tail_plain b).mp hb
-      obtain ⟨tn', hg', _, _, hname⟩ := plainAt_spec (L.tail_plain t ht)
-      rw [hg] at hg'; cases hg'
-      exact Or.inr ⟨tn.name, _, rfl, by simp [hname, ht]⟩
+    intro f h w hw
+    have L := levelOK_spec h
+    simp only [coreWrites, List.mem_append, List.mem_singleton, List.mem_flatMap] at hw
+    rcases hw with rfl | ⟨m, hm, hw⟩
+    · exact Or.inl ⟨_, rfl⟩
+    · obtain ⟨_, mn, hg, _, hname, hnest⟩ := L.member m hm
+      have hin : ∀ x, (x = m ∨ (mn.members ≠ [] ∧ x ∈ inner dag fuel mn)) → x ∈ inner dag (fuel+1) f := by
+        intro x hx
+        simp only [inner, List.mem_flatMap, List.mem_cons]
+        refine ⟨m, hm, ?_⟩
+        rcases hx with rfl | ⟨hne, hx⟩
+        · exact Or.inl rfl
+        · simp only [hg]; rw [if_pos hne]; exact Or.inr hx
+      simp only [blockOf, hg] at hw
+      by_cases hne : mn.members ≠ []
+      · rw [if_pos hne] at hw
+        rcases List.mem_append.mp hw with hw | hw
+        · rcases ih mn (hnest hne) w hw with h1 | ⟨x, i, h1, h2⟩
+          · exact Or.inl h1
+          · exact Or.inr ⟨x, i, h1, hin x (Or.inr ⟨hne, h2⟩)⟩
+        · simp only [List.mem_singleton] at hw; subst hw
+          exact Or.inr ⟨mn.name, index, rfl, hin _ (Or.inl hname)⟩
+      · rw [if_neg hne] at hw
+        simp only [List.mem_singleton] at hw; subst hw
+        exact Or.inr ⟨mn.name, _, rfl, hin _ (Or.inl hname)⟩
 
-/-- the same for all writes: `top n` keys have `n ≤ f.name` -/
-theorem writes_top (dag : Dag) (index : Nat) : ∀ (fuel : Nat) (f : Node), levelOK dag fuel f = true →
-    ∀ b ∈ fusedWrites dag index fuel f, ∀ n, b.1 = FKey.top n → n ≤ f.name := by
-  intro fuel
-  induction fuel with
-  | zero => intro f h; simp [levelOK] at h
-  | succ fuel ih =>
-    intro f h b hb n hn
-    obtain ⟨r, tail, rn, L⟩ := levelOK_spec h
-    simp only [fusedWrites, L.members, List.flatMap_cons, List.mem_append, List.mem_singleton] at hb
-    rcases hb with (rfl | hb | hb) | hb
-    · simp only [FKey.top.injEq] at hn; omega
-    · simp only [blockOf, L.r_node] at hb
-      by_cases hne : rn.members ≠ []
-      · simp only [ne_eq, hne, not_false_eq_true, if_true, List.mem_append, List.mem_singleton] at hb
-        rcases hb with hb | rfl
-        · have := ih rn (L.nested hne).1 b hb n hn
-          have h2 := L.r_lt; rw [← L.r_name] at h2
-          omega
-        · cases hn
-      · simp only [hne, if_false, List.mem_singleton] at hb
-        subst hb
-        simp [plainWrite] at hn
-    · obtain ⟨t, ht, tn, hg, rfl⟩ := (tail_block L.tail_plain b).mp hb
-      simp [plainWrite] at hn
-    · obtain ⟨d, _, hk⟩ := phWrites_key hb
-      obtain ⟨j, hj⟩ := argKey_name dag f index d
-      rw [hk, hj] at hn
-      cases hn
-
-/-- every expected binding is what the finished dict holds (no later write replaces it) -/
-theorem bindings_lookup (dag : Dag) (index : Nat) : ∀ (fuel : Nat) (f : Node), levelOK dag fuel f = true →
-    ∀ b ∈ bindings dag index fuel f, lastWrite (fusedWrites dag index fuel f) b.1 = some b.2 := by
-  intro fuel
-  induction fuel with
-  | zero => intro f h; simp [levelOK] at h
-  | succ fuel ih =>
-    intro f h b hb
-    obtain ⟨r, tail, rn, L⟩ := levelOK_spec h
-    have hinner := inner_unfold L
-    -- the placeholder writes never touch a key inside `f`, nor a `top` key
-    have hph : ∀ x i, x ∈ inner dag (fuel+1) f → ∀ c ∈ phWrites dag f index, c.1 ≠ FKey.part x i := by
-      intro x i hx c hc heq
-      obtain ⟨d, hd, hk⟩ := phWrites_key hc
-      obtain ⟨j, hj⟩ := argKey_name dag f index d
-      rw [hk, hj] at heq
+/-- a key written by the core is bound, in the finished dict, to what the key determines -/
+theorem fused_lookup (dag : Dag) (index : Nat) (fuel : Nat) (f : Node)
+    (h : levelOK dag f.npart (fuel+1) f = true) (hself : getNode dag f.name = some f)
+    (w : FKey × Tsk FKey) (hw : w ∈ coreWrites dag index (fuel+1) f) :
+    lastWrite (fusedWrites dag index (fuel+1) f) w.1 = some w.2 := by
+  have L := levelOK_spec h
+  rw [writes_succ]
+  rw [lastWrite_append_left]
+  · apply lastWrite_all _ _ _ ⟨w, hw, rfl⟩
+    intro b hb hk
+    have e1 := core_expected dag index f.npart (fuel+1) f h hself b hb
+    have e2 := core_expected dag index f.npart (fuel+1) f h hself w hw
+    rw [hk, e2] at e1
+    exact (Option.some.inj e1).symm
+  · intro b hb heq
+    obtain ⟨d, hd, hk⟩ := phWrites_key hb
+    obtain ⟨j, hj⟩ := argKey_name dag f index d
+    rw [hk, hj] at heq
+    rcases core_keys dag index f.npart (fuel+1) f h w hw with ⟨n, h1⟩ | ⟨x, i, h1, h2⟩
+    · rw [h1] at heq; cases heq
+    · rw [h1] at heq
       simp only [FKey.part.injEq] at heq
-      exact (L.deps_out d hd).1 (heq.1 ▸ hx)
-    have hphtop : ∀ n, ∀ c ∈ phWrites dag f index, c.1 ≠ FKey.top n := by
-      intro n c hc heq
-      obtain ⟨d, _, hk⟩ := phWrites_key hc
-      obtain ⟨j, hj⟩ := argKey_name dag f index d
-      rw [hk, hj] at heq
-      cases heq
-    -- tail writes
-    have htailkey : ∀ c ∈ tail.flatMap (blockOf dag index (fun m => fusedWrites dag index fuel m)),
-        ∃ t ∈ tail, ∃ tn, getNode dag t = some tn ∧ tn.name = t ∧ c = plainWrite dag tn index := by
-      intro c hc
-      obtain ⟨t, ht, tn, hg, rfl⟩ := (tail_block L.tail_plain c).mp hc
-      obtain ⟨tn', hg', _, _, hname⟩ := plainAt_spec (L.tail_plain t ht)
-      rw [hg] at hg'; cases hg'
-      exact ⟨t, ht, tn, hg, hname, rfl⟩
-    have hW : fusedWrites dag index (fuel+1) f =
-        (([(FKey.top f.name, Tsk.alias (FKey.part (f.members.headD 0) index))] ++
-          blockOf dag index (fun m => fusedWrites dag index fuel m) r) ++
-          tail.flatMap (blockOf dag index (fun m => fusedWrites dag index fuel m))) ++
-          phWrites dag f index := by
-      simp only [fusedWrites, L.members, List.flatMap_cons, List.append_assoc]
-    rw [hW]
-    simp only [bindings, L.members, List.flatMap_cons, List.mem_append, List.mem_singleton] at hb
-    rcases hb with rfl | hb | hb
-    · -- the node's own name key
-      rw [lastWrite_append_left _ _ _ (hphtop f.name)]
-      rw [lastWrite_append_left]
-      · rw [lastWrite_append_left]
-        · exact lastWrite_all _ _ _ ⟨_, List.mem_singleton.mpr rfl, rfl⟩ (fun c hc _ => by rw [List.mem_singleton.mp hc]; try rw [L.members])
-        · intro c hc heq
-          simp only [blockOf, L.r_node] at hc
-          by_cases hne : rn.members ≠ []
-          · simp only [ne_eq, hne, not_false_eq_true, if_true, List.mem_append, List.mem_singleton] at hc
-            rcases hc with hc | rfl
-            · have := writes_top dag index fuel rn (L.nested hne).1 c hc f.name heq
-              have h2 := L.r_lt; rw [← L.r_name] at h2
-              omega
-            · cases heq
-          · simp only [hne, if_false, List.mem_singleton] at hc
-            subst hc
-            simp [plainWrite] at heq
-      · intro c hc heq
-        obtain ⟨t, _, tn, _, _, rfl⟩ := htailkey c hc
-        simp [plainWrite] at heq
-    · -- bindings of the first member
-      simp only [blockOf, L.r_node] at hb
-      by_cases hne : rn.members ≠ []
-      · obtain ⟨hlr, hdisj⟩ := L.nested hne
-        simp only [ne_eq, hne, not_false_eq_true, if_true, List.mem_append, List.mem_singleton] at hb
-        have hblock : blockOf dag index (fun m => fusedWrites dag index fuel m) r =
-            fusedWrites dag index fuel rn ++ [(FKey.part rn.name index, Tsk.alias (FKey.top rn.name))] := by
-          simp only [blockOf, L.r_node, ne_eq, hne, not_false_eq_true, if_true]
-        rw [hblock]
-        rcases hb with hb | rfl
-        · -- a binding of the nested group: nothing after its sub-graph touches the key
-          have hkey := bindings_keys dag index fuel rn hlr b hb
-          have hafter : ∀ c, (c = (FKey.part rn.name index, Tsk.alias (FKey.top rn.name)) ∨
-              c ∈ tail.flatMap (blockOf dag index (fun m => fusedWrites dag index fuel m)) ∨
-              c ∈ phWrites dag f index) → c.1 ≠ b.1 := by
-            intro c hc heq
-            rcases hkey with ⟨n, h1, _⟩ | ⟨x, i, h1, h2⟩
-            · rw [h1] at heq
-              rcases hc with rfl | hc | hc
-              · cases heq
-              · obtain ⟨t, _, tn, _, _, rfl⟩ := htailkey c hc
-                simp [plainWrite] at heq
-              · exact hphtop n c hc heq
-            · rw [h1] at heq
-              rcases hc with rfl | hc | hc
-              · simp only [FKey.part.injEq] at heq
-                have := inner_lt dag fuel rn hlr x h2
-                omega
-              · obtain ⟨t, ht, tn, _, hname, rfl⟩ := htailkey c hc
-                simp only [plainWrite, FKey.part.injEq] at heq
-                exact hdisj t ht (hname ▸ heq.1 ▸ h2)
-              · exact hph x i (by rw [hinner]; simp [hne, h2]) c hc heq
-          rw [lastWrite_append_left _ _ _ (fun c hc => hafter c (Or.inr (Or.inr hc)))]
-          rw [lastWrite_append_left _ _ _ (fun c hc => hafter c (Or.inr (Or.inl hc)))]
-          rw [← List.append_assoc]
-          rw [lastWrite_append_left _ _ _ (fun c hc => hafter c (Or.inl (by simpa using hc)))]
-          apply lastWrite_append_right
-          exact ih rn hlr b hb
-        · -- graph[(name, index)] = name
-          have hrin : rn.name ∈ inner dag (fuel+1) f := by rw [hinner]; simp [L.r_name]
-          rw [lastWrite_append_left _ _ _ (hph rn.name index hrin)]
-          rw [lastWrite_append_left]
-          · rw [← List.append_assoc]
-            apply lastWrite_append_right
-            exact lastWrite_all _ _ _ ⟨_, List.mem_singleton.mpr rfl, rfl⟩ (fun c hc _ => by rw [List.mem_singleton.mp hc]; try rw [L.members])
-          · intro c hc heq
-            obtain ⟨t, ht, tn, hg, hname, rfl⟩ := htailkey c hc
-            simp only [plainWrite, FKey.part.injEq] at heq
-            obtain ⟨tn', hg', _, hmem, _⟩ := plainAt_spec (L.tail_plain t ht)
-            rw [hg] at hg'; cases hg'
-            have : t = r := by rw [← hname, heq.1, L.r_name]
-            subst this
-            rw [L.r_node] at hg; cases hg
-            exact hne hmem
-      · -- ordinary first member
-        simp only [hne, if_false, List.mem_singleton] at hb
-        subst hb
-        have hblock : blockOf dag index (fun m => fusedWrites dag index fuel m) r = [plainWrite dag rn index] := by
-          simp only [blockOf, L.r_node, hne, if_false]
-        rw [hblock]
-        have hrin : rn.name ∈ inner dag (fuel+1) f := by rw [hinner]; simp [L.r_name]
-        rw [lastWrite_append_left _ _ (plainWrite dag rn index).1 (hph rn.name _ hrin)]
-        apply lastWrite_all
-        · exact ⟨plainWrite dag rn index, by simp, rfl⟩
-        · intro c hc heq
-          simp only [List.mem_append, List.mem_singleton, List.mem_cons, List.not_mem_nil, or_false] at hc
-          rcases hc with (rfl | rfl) | hc
-          · simp [plainWrite] at heq
-          · rfl
-          · obtain ⟨t, ht, tn, hg, hname, rfl⟩ := htailkey c hc
-            simp only [plainWrite, FKey.part.injEq] at heq
-            have : t = r := by rw [← hname, heq.1, L.r_name]
-            subst this
-            rw [L.r_node] at hg; cases hg
-            rfl
-    · -- bindings of the other members
-      obtain ⟨t, ht, tn, hg, hname, rfl⟩ := htailkey b (by
-        have := (tail_block (nested := fun m => bindings dag index fuel m) L.tail_plain b).mp hb
-        exact (tail_block L.tail_plain b).mpr this)
-      have htin : tn.name ∈ inner dag (fuel+1) f := by rw [hinner]; simp [hname, ht]
-      rw [lastWrite_append_left _ _ (plainWrite dag tn index).1 (hph tn.name _ htin)]
-      apply lastWrite_append_right
-      apply lastWrite_all
-      · exact ⟨plainWrite dag tn index, (tail_block L.tail_plain _).mpr ⟨t, ht, tn, hg, rfl⟩, rfl⟩
-      · intro c hc heq
-        obtain ⟨t', ht', tn', hg', hname', rfl⟩ := htailkey c hc
-        simp only [plainWrite, FKey.part.injEq] at heq
-        have : t' = t := by rw [← hname', heq.1, hname]
-        subst this
-        rw [hg] at hg'; cases hg'
-        rfl
+      exact (L.deps_out d hd).1 (heq.1 ▸ h2)
 
 /-! ### placeholders -/
 
@@ -528,79 +468,165 @@ theorem ph_lookup (dag : Dag) (f : Node) (index : Nat) (A : List (FKey × Tsk FK
       rw [List.getElem?_map, hget]
       simp [hk]
 
-theorem writes_noph (dag : Dag) (index : Nat) : ∀ (fuel : Nat) (f : Node), levelOK dag fuel f = true →
-    ∀ b ∈ fusedWrites dag index fuel f, ∀ j, b.1 ≠ FKey.ph j := by
+theorem core_noph_key (dag : Dag) (index np : Nat) (fuel : Nat) (f : Node) (h : levelOK dag np fuel f = true) :
+    ∀ w ∈ coreWrites dag index fuel f, ∀ j, w.1 ≠ FKey.ph j := by
+  intro w hw j hj
+  rcases core_keys dag index np fuel f h w hw with ⟨n, h1⟩ | ⟨x, i, h1, _⟩
+  · rw [h1] at hj; cases hj
+  · rw [h1] at hj; cases hj
+
+/-! ### which keys the core writes -/
+
+theorem flat_core (dag : Dag) (index : Nat) : ∀ (fuel : Nat) (f : Node),
+    ∀ m ∈ flat dag fuel f, ∀ mn, getNode dag m = some mn → plainWrite dag mn index ∈ coreWrites dag index fuel f := by
+  intro fuel
+  induction fuel with
+  | zero => intro f m hm; simp [flat] at hm
+  | succ fuel ih =>
+    intro f m hm mn hg
+    simp only [flat, List.mem_flatMap] at hm
+    obtain ⟨m', hm', hx⟩ := hm
+    simp only [coreWrites, List.mem_append, List.mem_singleton, List.mem_flatMap]
+    right
+    refine ⟨m', hm', ?_⟩
+    cases hg' : getNode dag m' with
+    | none =>
+      simp only [hg', List.mem_singleton] at hx
+      subst hx
+      rw [hg] at hg'; cases hg'
+    | some mn' =>
+      simp only [hg'] at hx
+      simp only [blockOf, hg']
+      by_cases hne : mn'.members ≠ []
+      · rw [if_pos hne] at hx
+        rw [if_pos hne]
+        exact List.mem_append.mpr (Or.inl (ih mn' m hx mn hg))
+      · rw [if_neg hne] at hx
+        rw [if_neg hne]
+        simp only [List.mem_singleton] at hx
+        subst hx
+        rw [hg] at hg'; cases hg'
+        simp
+
+/-- facts about the first member of a well-formed level -/
+theorem head_info (dag : Dag) (np fuel : Nat) (f : Node) (h : levelOK dag np (fuel+1) f = true) :
+    f.members.headD 0 < f.name ∧
+    (f.members.headD 0 ∈ flat dag (fuel+1) f ∨ f.members.headD 0 ∈ nested dag (fuel+1) f) ∧
+    ∃ rn, getNode dag (f.members.headD 0) = some rn ∧ rn.npart = np := by
+  have L := levelOK_spec h
+  obtain ⟨r, tail, hm⟩ : ∃ r tail, f.members = r :: tail := by
+    cases hmm : f.members with
+    | nil => exact absurd hmm L.nonempty
+    | cons a t => exact ⟨a, t, rfl⟩
+  have hr : f.members.headD 0 = r := by rw [hm]; rfl
+  rw [hr]
+  obtain ⟨hlt, mn, hg, _, _, _⟩ := L.member r (by rw [hm]; simp)
+  refine ⟨hlt, ?_, ?_⟩
+  · simp only [flat, nested, hm, List.flatMap_cons, hg, List.mem_append]
+    by_cases hne : mn.members ≠ []
+    · right; left; rw [if_pos hne]; simp
+    · left; left; rw [if_neg hne]; simp
+  · obtain ⟨rn, hgr, hnp⟩ := L.head
+    rw [hr] at hgr
+    exact ⟨rn, hgr, hnp⟩
+
+/-- facts about a nested group (any level) of a well-formed node -/
+structure NestedInfo (dag : Dag) (index np : Nat) (core : List (FKey × Tsk FKey)) (S Fs : List Nat)
+    (F : Nat) (Fn : Node) : Prop where
+  node : getNode dag F = some Fn
+  fused : Fn.members ≠ []
+  npart : Fn.npart = np
+  top_write : (FKey.top F, Tsk.alias (FKey.part (Fn.members.headD 0) index)) ∈ core
+  alias_write : (FKey.part F index, Tsk.alias (FKey.top F)) ∈ core
+  head_lt : Fn.members.headD 0 < F
+  head_in : Fn.members.headD 0 ∈ S ∨ Fn.members.headD 0 ∈ Fs
+  head_np : ∃ rn, getNode dag (Fn.members.headD 0) = some rn ∧ rn.npart = np
+
+theorem nested_info (dag : Dag) (index np : Nat) : ∀ (fuel : Nat) (f : Node), levelOK dag np fuel f = true →
+    ∀ F ∈ nested dag fuel f, ∃ Fn, NestedInfo dag index np (coreWrites dag index fuel f)
+      (flat dag fuel f) (nested dag fuel f) F Fn := by
   intro fuel
   induction fuel with
   | zero => intro f h; simp [levelOK] at h
   | succ fuel ih =>
-    intro f h b hb j hj
-    obtain ⟨r, tail, rn, L⟩ := levelOK_spec h
-    simp only [fusedWrites, L.members, List.flatMap_cons, List.mem_append, List.mem_singleton] at hb
-    rcases hb with (rfl | hb | hb) | hb
-    · cases hj
-    · simp only [blockOf, L.r_node] at hb
-      by_cases hne : rn.members ≠ []
-      · simp only [ne_eq, hne, not_false_eq_true, if_true, List.mem_append, List.mem_singleton] at hb
-        rcases hb with hb | rfl
-        · exact ih rn (L.nested hne).1 b hb j hj
-        · cases hj
-      · simp only [hne, if_false, List.mem_singleton] at hb
-        subst hb
-        simp [plainWrite] at hj
-    · obtain ⟨t, ht, tn, hg, rfl⟩ := (tail_block L.tail_plain b).mp hb
-      simp [plainWrite] at hj
-    · obtain ⟨d, _, hk⟩ := phWrites_key hb
-      obtain ⟨i, hi⟩ := argKey_name dag f index d
-      rw [hk, hi] at hj
-      cases hj
+    intro f h F hF
+    have L := levelOK_spec h
+    simp only [nested, List.mem_flatMap] at hF
+    obtain ⟨m, hm, hF⟩ := hF
+    obtain ⟨_, mn, hg, _, hname, hnest⟩ := L.member m hm
+    simp only [hg] at hF
+    by_cases hne : mn.members ≠ []
+    · rw [if_pos hne] at hF
+      have hlm := hnest hne
+      -- everything of the nested node `mn` is part of `f`
+      have hcore : ∀ w, w ∈ coreWrites dag index fuel mn ∨ w = (FKey.part mn.name index, Tsk.alias (FKey.top mn.name)) →
+          w ∈ coreWrites dag index (fuel+1) f := by
+        intro w hw
+        simp only [coreWrites, List.mem_append, List.mem_singleton, List.mem_flatMap]
+        right
+        refine ⟨m, hm, ?_⟩
+        simp only [blockOf, hg]
+        rw [if_pos hne]
+        rcases hw with hw | hw
+        · exact List.mem_append.mpr (Or.inl hw)
+        · exact List.mem_append.mpr (Or.inr (by simp [hw]))
+      have hflat : ∀ x, x ∈ flat dag fuel mn → x ∈ flat dag (fuel+1) f := by
+        intro x hx
+        simp only [flat, List.mem_flatMap]
+        exact ⟨m, hm, by simp only [hg]; rw [if_pos hne]; exact hx⟩
+      have hnested : ∀ x, (x = m ∨ x ∈ nested dag fuel mn) → x ∈ nested dag (fuel+1) f := by
+        intro x hx
+        simp only [nested, List.mem_flatMap]
+        refine ⟨m, hm, ?_⟩
+        simp only [hg]; rw [if_pos hne]
+        rcases hx with rfl | hx
+        · simp
+        · exact List.mem_cons_of_mem _ hx
+      rcases List.mem_cons.mp hF with rfl | hF
+      · -- the nested member itself
+        cases fuel with
+        | zero => simp [levelOK] at hlm
+        | succ fuel' =>
+          have Lm := levelOK_spec hlm
+          obtain ⟨hhlt, hhin, hhnp⟩ := head_info dag np fuel' mn hlm
+          refine ⟨mn, hg, hne, Lm.npart, ?_, ?_, ?_, ?_, hhnp⟩
+          · apply hcore; left
+            simp only [coreWrites, List.mem_append, List.mem_singleton]
+            left; rw [hname]
+          · apply hcore; right; rw [hname]
+          · rw [hname] at hhlt; exact hhlt
+          · rcases hhin with h1 | h1
+            · exact Or.inl (hflat _ h1)
+            · exact Or.inr (hnested _ (Or.inr h1))
+      · obtain ⟨Fn, I⟩ := ih mn hlm F hF
+        refine ⟨Fn, I.node, I.fused, I.npart, hcore _ (Or.inl I.top_write), hcore _ (Or.inl I.alias_write),
+          I.head_lt, ?_, I.head_np⟩
+        rcases I.head_in with h1 | h1
+        · exact Or.inl (hflat _ h1)
+        · exact Or.inr (hnested _ (Or.inr h1))
+    · rw [if_neg hne] at hF; cases hF
 
 /-! ### members -/
 
-theorem flat_bindings (dag : Dag) (index : Nat) : ∀ (fuel : Nat) (f : Node), levelOK dag fuel f = true →
-    ∀ m ∈ flat dag fuel f, ∀ mn, getNode dag m = some mn → plainWrite dag mn index ∈ bindings dag index fuel f := by
-  intro fuel
-  induction fuel with
-  | zero => intro f h; simp [levelOK] at h
-  | succ fuel ih =>
-    intro f h m hm mn hg
-    obtain ⟨r, tail, rn, L⟩ := levelOK_spec h
-    rw [flat_unfold L] at hm
-    simp only [bindings, L.members, List.flatMap_cons, List.mem_append, List.mem_singleton]
-    rcases List.mem_append.mp hm with hm | hm
-    · right; left
-      simp only [blockOf, L.r_node]
-      by_cases hne : rn.members ≠ []
-      · rw [if_pos hne] at hm
-        rw [if_pos hne]
-        exact List.mem_append.mpr (Or.inl (ih rn (L.nested hne).1 m hm mn hg))
-      · rw [if_neg hne] at hm
-        rw [if_neg hne]
-        simp only [List.mem_singleton] at hm
-        subst hm
-        rw [L.r_node] at hg; cases hg
-        simp
-    · right; right
-      exact (tail_block L.tail_plain _).mpr ⟨m, hm, mn, hg, rfl⟩
-
-structure MemOK (dag : Dag) (f : Node) (S : List Nat) (m : Nat) (mn : Node) : Prop where
+structure MemOK (dag : Dag) (f : Node) (S Fs : List Nat) (m : Nat) (mn : Node) : Prop where
   node : getNode dag m = some mn
+  plain : mn.members = []
   name : mn.name = m
   npart : mn.npart = f.npart ∨ mn.npart = 1
   deps : ∀ d ∈ mn.deps, ∃ dn, getNode dag d = some dn ∧ (bcast mn dn = true ∨ dn.npart = mn.npart) ∧
-    (d ∈ S → d < m) ∧ (d ∉ S → d ∈ f.deps)
+    (d ∈ S ∨ d ∈ Fs → d < m) ∧ (¬ (d ∈ S ∨ d ∈ Fs) → d ∈ f.deps)
 
-theorem membersOK_spec {dag : Dag} {f : Node} {S : List Nat} (h : membersOK dag f S = true) :
-    ∀ m ∈ S, ∃ mn, MemOK dag f S m mn := by
+theorem membersOK_spec {dag : Dag} {f : Node} {S Fs : List Nat} (h : membersOK dag f S Fs = true) :
+    ∀ m ∈ S, ∃ mn, MemOK dag f S Fs m mn := by
   intro m hm
   unfold membersOK at h
   rw [List.all_eq_true] at h
   have hmm := h m hm
   rw [Bool.and_eq_true] at hmm
   obtain ⟨hp, hrest⟩ := hmm
-  obtain ⟨mn, hg, _, _, hname⟩ := plainAt_spec hp
+  obtain ⟨mn, hg, _, hmem, hname⟩ := plainAt_spec hp
   simp only [hg, Bool.and_eq_true, Bool.or_eq_true, beq_iff_eq, List.all_eq_true] at hrest
-  refine ⟨mn, hg, hname, hrest.1, ?_⟩
+  refine ⟨mn, hg, hmem, hname, hrest.1, ?_⟩
   intro d hd
   obtain ⟨h1, h2⟩ := hrest.2 d hd
   cases hgd : getNode dag d with
@@ -608,8 +634,8 @@ theorem membersOK_spec {dag : Dag} {f : Node} {S : List Nat} (h : membersOK dag 
   | some dn =>
     simp only [hgd, Bool.and_eq_true, Bool.or_eq_true, beq_iff_eq] at h1
     refine ⟨dn, rfl, h1.2, ?_, ?_⟩
-    · intro hin; simpa [hin] using h2
-    · intro hnin; simpa [hnin] using h2
+    · intro hin; rw [if_pos hin] at h2; simpa using h2
+    · intro hnin; rw [if_neg hnin] at h2; simpa using h2
 
 theorem bcast_npart {c d : Node} (h : bcast c d = true) : d.npart = 1 := by
   unfold bcast at h
@@ -643,172 +669,192 @@ theorem argKey_external {dag : Dag} {f mn dn : Node} {d index : Nat} (hg : getNo
     · simp only [hb, ixOf, h]
       by_cases h1 : mn.npart = 1 <;> simp [h1]
 
-/-- evaluation of the member keys: the fused sub-graph and the unfused member tasks agree -/
-theorem members_eval (I : Interp) (dag : Dag) (f : Node) (index : Nat) (S : List Nat)
+/-- a member's reference to a nested group of the full partition count is the key `(name, index)` -/
+theorem argKey_nested {dag : Dag} {f mn dn : Node} {d index : Nat} (hg : getNode dag d = some dn)
+    (hnp : dn.npart = f.npart) (hi : index < f.npart) (hwf : bcast mn dn = true ∨ dn.npart = mn.npart) :
+    argKey dag mn (ixOf mn index) d = FKey.part d index := by
+  unfold argKey
+  simp only [hg]
+  by_cases hb : bcast mn dn = true
+  · have := bcast_npart hb
+    have : index = 0 := by omega
+    simp [hb, this]
+  · rcases hwf with h | h
+    · exact absurd h hb
+    · simp only [hb, ixOf]
+      by_cases h1 : mn.npart = 1
+      · have : index = 0 := by omega
+        simp [h1, this]
+      · simp [h1]
+
+theorem ixOf_full {nd : Node} {np index : Nat} (h : nd.npart = np) (hi : index < np) : ixOf nd index = index := by
+  unfold ixOf
+  by_cases h1 : nd.npart = 1
+  · have : index = 0 := by omega
+    simp [h1, this]
+  · simp [h1]
+
+/-- evaluation of the member keys and of the nested groups' keys: the fused sub-graph and the unfused
+    reference agree -/
+theorem members_eval (I : Interp) (dag : Dag) (f : Node) (index : Nat) (S Fs : List Nat)
     (g : Graph FKey) (inp : FKey → Option V) (ev : FKey → V)
-    (hmem : ∀ m ∈ S, ∃ mn, MemOK dag f S m mn)
+    (hmem : ∀ m ∈ S, ∃ mn, MemOK dag f S Fs m mn)
     (hk : f.kall = true) (hi : index < f.npart)
     (hg : ∀ m ∈ S, ∀ mn, getNode dag m = some mn →
       g (FKey.part m (ixOf mn index)) = some (plainTask dag mn (ixOf mn index)))
-    (hext : ∀ d ∈ f.deps, d ∉ S → ∀ N, 1 ≤ N → run I g inp N (argKey dag f index d) = ev (argKey dag f index d)) :
-    ∀ (n : Nat), ∀ m ∈ S, m < n → ∀ mn, getNode dag m = some mn → ∀ N N', n + 1 ≤ N → n ≤ N' →
-      run I g inp N (FKey.part m (ixOf mn index)) =
-        run I (memberGraph dag S) (fun k => some (ev k)) N' (FKey.part m (ixOf mn index)) := by
+    (hFs : ∀ F ∈ Fs, ∃ Fn, getNode dag F = some Fn ∧ Fn.members ≠ [] ∧ Fn.npart = f.npart ∧
+      g (FKey.part F index) = some (Tsk.alias (FKey.top F)) ∧
+      g (FKey.top F) = some (Tsk.alias (FKey.part (Fn.members.headD 0) index)) ∧
+      Fn.members.headD 0 < F ∧ (Fn.members.headD 0 ∈ S ∨ Fn.members.headD 0 ∈ Fs) ∧
+      ∃ rn, getNode dag (Fn.members.headD 0) = some rn ∧ rn.npart = f.npart)
+    (hext : ∀ d ∈ f.deps, ¬ (d ∈ S ∨ d ∈ Fs) → ∀ N, 1 ≤ N →
+      run I g inp N (argKey dag f index d) = ev (argKey dag f index d)) :
+    ∀ (n : Nat),
+      (∀ m ∈ S, m < n → ∀ mn, getNode dag m = some mn → ∀ N N', 2 * n + 1 ≤ N → n ≤ N' →
+        run I g inp N (FKey.part m (ixOf mn index)) =
+          run I (memberGraph dag S Fs) (fun k => some (ev k)) N' (FKey.part m (ixOf mn index))) ∧
+      (∀ F ∈ Fs, F < n → ∀ N N', 2 * n + 1 ≤ N → n ≤ N' →
+        run I g inp N (FKey.part F index) =
+          run I (memberGraph dag S Fs) (fun k => some (ev k)) N' (FKey.part F index)) := by
   intro n
   induction n with
-  | zero => intro m _ hlt; omega
+  | zero => exact ⟨fun m _ hlt => by omega, fun F _ hlt => by omega⟩
   | succ n ih =>
-    intro m hm hlt mn hgm N N' hN hN'
-    obtain ⟨mn', M⟩ := hmem m hm
-    rw [M.node] at hgm; cases hgm
-    obtain ⟨N1, rfl⟩ : ∃ N1, N = N1 + 1 := ⟨N - 1, by omega⟩
-    obtain ⟨N1', rfl⟩ : ∃ N1', N' = N1' + 1 := ⟨N' - 1, by omega⟩
-    have hix : ixOf mn index < mn.npart := by
-      unfold ixOf
-      rcases M.npart with h | h
-      · by_cases h1 : mn.npart = 1
-        · simp [h1]
-        · simp only [beq_iff_eq, h1, if_false]; omega
-      · simp [h]
-    have hU : memberGraph dag S (FKey.part m (ixOf mn index)) = some (plainTask dag mn (ixOf mn index)) := by
-      simp only [memberGraph, hm, if_true, M.node, hix]
-    rw [run_defined I g inp N1 _ _ (hg m hm mn M.node), run_defined I _ _ N1' _ _ hU]
-    apply evalTsk_congr
-    intro k hk'
-    simp only [plainTask, Tsk.refs, List.mem_map] at hk'
-    obtain ⟨d, hd, rfl⟩ := hk'
-    obtain ⟨dn, hgd, hwf, hin, hout⟩ := M.deps d hd
-    by_cases hdS : d ∈ S
-    · rw [argKey_member hgd hwf]
-      have hdm := hin hdS
-      exact ih d hdS (by omega) dn hgd N1 N1' (by omega) (by omega)
-    · rw [argKey_external hgd hk hwf]
-      rw [hext d (hout hdS) hdS N1 (by omega)]
-      have hnone : memberGraph dag S (argKey dag f index d) = none := by
-        obtain ⟨j, hj⟩ := argKey_name dag f index d
-        rw [hj]
-        simp only [memberGraph, hdS, if_false]
-      rw [run_undefined I _ _ _ hnone]
-      rfl
-
-/-! ### the chain of name keys -/
-
-theorem chain_eval (I : Interp) (dag : Dag) (index : Nat) (g : Graph FKey) (inp : FKey → Option V) :
-    ∀ (fuel : Nat) (f : Node), levelOK dag fuel f = true →
-      (∀ b ∈ bindings dag index fuel f, g b.1 = some b.2) →
-      ∃ s rs rsn, s ≤ 2 * fuel ∧ (flat dag fuel f).head? = some rs ∧ getNode dag rs = some rsn ∧
-        rsn.npart = f.npart ∧
-        ∀ N, run I g inp (N + s) (FKey.top f.name) = run I g inp N (FKey.part rs index) := by
-  intro fuel
-  induction fuel with
-  | zero => intro f h; simp [levelOK] at h
-  | succ fuel ih =>
-    intro f h hb
-    obtain ⟨r, tail, rn, L⟩ := levelOK_spec h
-    have htop : g (FKey.top f.name) = some (Tsk.alias (FKey.part r index)) := by
-      have := hb (FKey.top f.name, Tsk.alias (FKey.part (f.members.headD 0) index)) (by simp [bindings])
-      simpa [L.members] using this
-    have hstep : ∀ N, run I g inp (N + 1) (FKey.top f.name) = run I g inp N (FKey.part r index) := by
-      intro N
-      rw [run_defined I g inp N _ _ htop]
-      rfl
-    by_cases hne : rn.members ≠ []
-    · obtain ⟨hlr, _⟩ := L.nested hne
-      have hsub : ∀ b ∈ bindings dag index fuel rn, g b.1 = some b.2 := by
-        intro b hbb
-        apply hb
-        simp only [bindings, L.members, List.flatMap_cons, List.mem_append, List.mem_singleton]
-        right; left
-        simp only [blockOf, L.r_node]
-        rw [if_pos hne]
-        exact List.mem_append.mpr (Or.inl hbb)
-      have halias : g (FKey.part r index) = some (Tsk.alias (FKey.top r)) := by
-        have := hb (FKey.part rn.name index, Tsk.alias (FKey.top rn.name)) (by
-          simp only [bindings, L.members, List.flatMap_cons, List.mem_append, List.mem_singleton]
-          right; left
-          simp only [blockOf, L.r_node]
-          rw [if_pos hne]
-          simp)
-        simpa [L.r_name] using this
-      obtain ⟨s, rs, rsn, hs, hhead, hgrs, hnp, hrun⟩ := ih rn hlr hsub
-      refine ⟨s + 2, rs, rsn, by omega, ?_, hgrs, by rw [hnp, L.r_npart], ?_⟩
-      · rw [flat_unfold L, if_pos hne]
-        cases hfl : flat dag fuel rn with
-        | nil => rw [hfl] at hhead; cases hhead
-        | cons a t => rw [hfl] at hhead; simpa using hhead
-      · intro N
-        have : N + (s + 2) = (N + s + 1) + 1 := by omega
-        rw [this, hstep, run_defined I g inp _ _ _ halias]
-        show run I g inp (N + s) (FKey.top r) = _
-        rw [← L.r_name]
-        exact hrun N
-    · refine ⟨1, r, rn, by omega, ?_, L.r_node, L.r_npart, hstep⟩
-      rw [flat_unfold L, if_neg hne]
-      rfl
+    obtain ⟨ihS, ihF⟩ := ih
+    -- a nested group cannot be an ordinary member
+    have hdisj : ∀ F ∈ Fs, F ∉ S := by
+      intro F hF hS
+      obtain ⟨Fn, hgF, hne, _⟩ := hFs F hF
+      obtain ⟨mn, M⟩ := hmem F hS
+      rw [M.node] at hgF; cases hgF
+      exact hne M.plain
+    refine ⟨?_, ?_⟩
+    · intro m hm hlt mn hgm N N' hN hN'
+      obtain ⟨mn', M⟩ := hmem m hm
+      rw [M.node] at hgm; cases hgm
+      obtain ⟨N1, rfl⟩ : ∃ N1, N = N1 + 1 := ⟨N - 1, by omega⟩
+      obtain ⟨N1', rfl⟩ : ∃ N1', N' = N1' + 1 := ⟨N' - 1, by omega⟩
+      have hix : ixOf mn index < mn.npart := by
+        unfold ixOf
+        rcases M.npart with h | h
+        · by_cases h1 : mn.npart = 1
+          · simp [h1]
+          · simp only [beq_iff_eq, h1, if_false]; omega
+        · simp [h]
+      have hU : memberGraph dag S Fs (FKey.part m (ixOf mn index)) = some (plainTask dag mn (ixOf mn index)) := by
+        simp only [memberGraph, hm, if_true, M.node, hix]
+      rw [run_defined I g inp N1 _ _ (hg m hm mn M.node), run_defined I _ _ N1' _ _ hU]
+      apply evalTsk_congr
+      intro k hk'
+      simp only [plainTask, Tsk.refs, List.mem_map] at hk'
+      obtain ⟨d, hd, rfl⟩ := hk'
+      obtain ⟨dn, hgd, hwf, hin, hout⟩ := M.deps d hd
+      by_cases hdS : d ∈ S
+      · rw [argKey_member hgd hwf]
+        have hdm := hin (Or.inl hdS)
+        exact ihS d hdS (by omega) dn hgd N1 N1' (by omega) (by omega)
+      · by_cases hdF : d ∈ Fs
+        · obtain ⟨Fn, hgF, _, hFnp, _⟩ := hFs d hdF
+          rw [hgd] at hgF; cases hgF
+          rw [argKey_nested hgd hFnp hi hwf]
+          have hdm := hin (Or.inr hdF)
+          exact ihF d hdF (by omega) N1 N1' (by omega) (by omega)
+        · have hno : ¬ (d ∈ S ∨ d ∈ Fs) := fun h => h.elim hdS hdF
+          rw [argKey_external hgd hk hwf]
+          rw [hext d (hout hno) hno N1 (by omega)]
+          have hnone : memberGraph dag S Fs (argKey dag f index d) = none := by
+            obtain ⟨j, hj⟩ := argKey_name dag f index d
+            rw [hj]
+            simp only [memberGraph, hdS, hdF, if_false]
+          rw [run_undefined I _ _ _ hnone]
+          rfl
+    · intro F hF hlt N N' hN hN'
+      obtain ⟨Fn, hgF, hne, hFnp, hg1, hg2, hrlt, hrin, rn, hgr, hrnp⟩ := hFs F hF
+      obtain ⟨N2, rfl⟩ : ∃ N2, N = N2 + 2 := ⟨N - 2, by omega⟩
+      obtain ⟨N1', rfl⟩ : ∃ N1', N' = N1' + 1 := ⟨N' - 1, by omega⟩
+      have hU : memberGraph dag S Fs (FKey.part F index) =
+          some (Tsk.alias (FKey.part (Fn.members.headD 0) index)) := by
+        simp only [memberGraph, hdisj F hF, hF, if_true, if_false, hgF]
+      rw [run_defined I g inp (N2+1) _ _ hg1]
+      show run I g inp (N2+1) (FKey.top F) = _
+      rw [run_defined I g inp N2 _ _ hg2, run_defined I _ _ N1' _ _ hU]
+      show run I g inp N2 (FKey.part (Fn.members.headD 0) index) =
+        run I (memberGraph dag S Fs) (fun k => some (ev k)) N1' (FKey.part (Fn.members.headD 0) index)
+      rcases hrin with hrS | hrF
+      · have := ihS _ hrS (by omega) rn hgr N2 N1' (by omega) (by omega)
+        rw [ixOf_full hrnp hi] at this
+        exact this
+      · exact ihF _ hrF (by omega) N2 N1' (by omega) (by omega)
 
 /-! ### the theorem -/
 
 theorem fused_task_correct (I : Interp) (dag : Dag) (f : Node) (index : Nat) (ev : FKey → V)
     (hok : fusedOK dag f = true) (hi : index < f.npart) :
-    ∀ N N', 3 * f.name + 4 ≤ N → f.name ≤ N' →
+    ∀ N N', 2 * f.name + 2 ≤ N → f.name ≤ N' →
       fusedValue I dag f index ev N =
-        run I (memberGraph dag (flat dag (f.name + 1) f)) (fun k => some (ev k)) N'
-          (FKey.part ((flat dag (f.name + 1) f).headD 0) index) := by
+        run I (memberGraph dag (flat dag (f.name + 1) f) (nested dag (f.name + 1) f)) (fun k => some (ev k)) N'
+          (FKey.part (f.members.headD 0) index) := by
   intro N N' hN hN'
   unfold fusedOK at hok
   simp only [Bool.and_eq_true] at hok
-  obtain ⟨hlevel, hmembers⟩ := hok
-  obtain ⟨r, tail, rn, L⟩ := levelOK_spec hlevel
+  obtain ⟨⟨hself0, hlevel⟩, hmembers⟩ := hok
+  have hself : getNode dag f.name = some f := by
+    cases hg : getNode dag f.name with
+    | none => simp [hg] at hself0
+    | some g => simp only [hg, decide_eq_true_eq] at hself0; rw [hself0]
+  have L := levelOK_spec hlevel
   have hmem := membersOK_spec hmembers
-  have hlook := bindings_lookup dag index (f.name + 1) f hlevel
-  -- the chain
-  obtain ⟨s, rs, rsn, hs, hhead, hgrs, hnp, hrun⟩ :=
-    chain_eval I dag index (fusedGraph dag f index) (phInputs (fusedArgs dag f index) ev) (f.name + 1) f hlevel hlook
-  have hrsS : rs ∈ flat dag (f.name + 1) f := by
-    cases hfl : flat dag (f.name + 1) f with
-    | nil => rw [hfl] at hhead; cases hhead
-    | cons a t => rw [hfl] at hhead; simp at hhead; simp [hhead]
-  have hheadD : (flat dag (f.name + 1) f).headD 0 = rs := by
-    cases hfl : flat dag (f.name + 1) f with
-    | nil => rw [hfl] at hhead; cases hhead
-    | cons a t => rw [hfl] at hhead; simp at hhead; simp [hhead]
-  have hixrs : ixOf rsn index = index := by
-    unfold ixOf
-    by_cases h1 : rsn.npart = 1
-    · simp only [h1, beq_self_eq_true, if_true]; omega
-    · simp [h1]
-  unfold fusedValue
-  obtain ⟨N0, rfl⟩ : ∃ N0, N = N0 + s := ⟨N - s, by omega⟩
-  rw [hrun N0, hheadD]
-  have hlt : ∀ m ∈ flat dag (f.name + 1) f, m < f.name :=
-    fun m hm => inner_lt dag _ f hlevel m (flat_sub_inner dag _ f hlevel m hm)
-  have key := members_eval I dag f index (flat dag (f.name + 1) f) (fusedGraph dag f index)
-    (phInputs (fusedArgs dag f index) ev) ev hmem L.kall hi ?_ ?_ f.name rs hrsS (hlt rs hrsS) rsn hgrs
-    N0 N' (by omega) hN'
-  · rw [hixrs] at key
-    exact key
+  have hlook := fused_lookup dag index f.name f hlevel hself
+  have hgraph : ∀ w ∈ coreWrites dag index (f.name+1) f, fusedGraph dag f index w.1 = some w.2 := hlook
+  obtain ⟨hrlt, hrin, rn, hgr, hrnp⟩ := head_info dag f.npart f.name f hlevel
+  -- the top key
+  have htop : fusedGraph dag f index (FKey.top f.name) =
+      some (Tsk.alias (FKey.part (f.members.headD 0) index)) :=
+    hgraph (FKey.top f.name, _) (by simp [coreWrites])
+  have hltS : ∀ m ∈ flat dag (f.name + 1) f, m < f.name :=
+    fun m hm => inner_lt dag f.npart _ f hlevel m (flat_sub_inner dag _ f m hm)
+  have hltF : ∀ F ∈ nested dag (f.name + 1) f, F < f.name :=
+    fun F hF => inner_lt dag f.npart _ f hlevel F (nested_sub_inner dag _ f F hF)
+  have key := members_eval I dag f index (flat dag (f.name + 1) f) (nested dag (f.name + 1) f)
+    (fusedGraph dag f index) (phInputs (fusedArgs dag f index) ev) ev hmem L.kall hi ?_ ?_ ?_ f.name
+  · obtain ⟨keyS, keyF⟩ := key
+    unfold fusedValue
+    obtain ⟨N1, rfl⟩ : ∃ N1, N = N1 + 1 := ⟨N - 1, by omega⟩
+    rw [run_defined I _ _ N1 _ _ htop]
+    show run I (fusedGraph dag f index) (phInputs (fusedArgs dag f index) ev) N1 (FKey.part (f.members.headD 0) index) = _
+    rcases hrin with hrS | hrF
+    · have := keyS _ hrS (hltS _ hrS) rn hgr N1 N' (by omega) hN'
+      rw [ixOf_full hrnp hi] at this
+      exact this
+    · exact keyF _ hrF (hltF _ hrF) N1 N' (by omega) hN'
   · intro m hm mn hgm
     obtain ⟨mn', M⟩ := hmem m hm
     rw [M.node] at hgm; cases hgm
-    have := hlook _ (flat_bindings dag index _ f hlevel m hm mn M.node)
+    have := hgraph _ (flat_core dag index _ f m hm mn M.node)
     simp only [plainWrite, M.name] at this
     exact this
+  · intro F hF
+    obtain ⟨Fn, NI⟩ := nested_info dag index f.npart _ f hlevel F hF
+    exact ⟨Fn, NI.node, NI.fused, NI.npart, hgraph _ NI.alias_write, hgraph _ NI.top_write, NI.head_lt,
+      NI.head_in, NI.head_np⟩
   · intro d hd hdS M hM
-    obtain ⟨j, hl, harg⟩ := ph_lookup dag f index
-      ([(FKey.top f.name, Tsk.alias (FKey.part (f.members.headD 0) index))] ++
-        f.members.flatMap (blockOf dag index (fun m => fusedWrites dag index f.name m))) d hd
-    have hgk : fusedGraph dag f index (argKey dag f index d) = some (Tsk.alias (FKey.ph j)) := by
-      unfold fusedGraph
-      simp only [fusedWrites]
-      exact hl
+    rw [show fusedGraph dag f index = lastWrite (coreWrites dag index (f.name+1) f ++ phWrites dag f index) from by
+      unfold fusedGraph; rw [writes_succ]]
+    obtain ⟨j, hl, harg⟩ := ph_lookup dag f index (coreWrites dag index (f.name+1) f) d hd
     obtain ⟨M0, rfl⟩ : ∃ M0, M = M0 + 1 := ⟨M - 1, by omega⟩
-    rw [run_defined I _ _ M0 _ _ hgk]
-    show run I (fusedGraph dag f index) (phInputs (fusedArgs dag f index) ev) M0 (FKey.ph j) = _
-    have hnone : fusedGraph dag f index (FKey.ph j) = none := by
-      unfold fusedGraph
+    rw [run_defined I _ _ M0 _ _ hl]
+    show run I (lastWrite (coreWrites dag index (f.name+1) f ++ phWrites dag f index))
+      (phInputs (fusedArgs dag f index) ev) M0 (FKey.ph j) = _
+    have hnone : lastWrite (coreWrites dag index (f.name+1) f ++ phWrites dag f index) (FKey.ph j) = none := by
       apply lastWrite_none
       intro b hb
-      exact writes_noph dag index _ f hlevel b hb j
+      rcases List.mem_append.mp hb with hb | hb
+      · exact core_noph_key dag index f.npart _ f hlevel b hb j
+      · intro heq
+        obtain ⟨d', _, hk⟩ := phWrites_key hb
+        obtain ⟨i, hi'⟩ := argKey_name dag f index d'
+        rw [hk, hi'] at heq
+        cases heq
     rw [run_undefined I _ _ _ hnone]
     simp [inpVal, phInputs, harg]
 
